@@ -525,6 +525,23 @@ class World(object):
 # ------------------------------------------------------------------- one run
 
 def proc_main(a):
+    """One simulated process.  Handlers it registered with atexit run when it
+    ends normally or with an exception (the interpreter exits), in LIFO order,
+    still under the scheduler; a killed process never gets there."""
+    try:
+        return _proc_body(a)
+    finally:
+        handlers = a.data.get("atexit") or []
+        while handlers and not a.sched.tearing_down:
+            fn, args, kw = handlers.pop()
+            a.sched.yield_point("atexit:" + getattr(fn, "__name__", "handler"))
+            try:
+                fn(*args, **kw)
+            except Exception:
+                pass
+
+
+def _proc_body(a):
     from sasmodels import core
     from sasmodels.direct_model import call_kernel
     out = []
@@ -562,6 +579,18 @@ def run_one(cfg, decisions=None, keep_events=False):
     kd.tempfile = seams.TempfileProxy(world)
     kd.SAS_DLL_PATH = world.cache_dir
     G["names"][0] = 0
+    import atexit as _atexit
+    real_register = _atexit.register
+
+    def _register(fn, *args, **kw):
+        me = sched.current() if sched is not None else None
+        if me is None:
+            return real_register(fn, *args, **kw)
+        me.data.setdefault("atexit", []).append((fn, args, kw))
+        world.probe("atexit_handler_registered")
+        return fn
+    sched = None
+    _atexit.register = _register
     xdev_saved = None
     if cfg.get("xdev"):
         # TMPDIR and the cache directory on different file systems (tmpfs /tmp,
@@ -682,6 +711,7 @@ def run_one(cfg, decisions=None, keep_events=False):
         except baton.HarnessError as exc:
             harness_error = harness_error or str(exc)
         world.restore_pristine()
+        _atexit.register = real_register
         if xdev_saved is not None:
             os.rename, os.replace, os.link = xdev_saved
         kd.subprocess, kd.ct, kd.os, kd.tempfile, kd.SAS_DLL_PATH = saved
